@@ -23,6 +23,7 @@ if ENGINE == 'sx':
     from lib import symx, symdate
     digits.install_symx_hook()
     symx.RESET_HOOKS.append(symdate.reset)
+    symdate.NARROW[0] = True      # every date of these harnesses lies in 1951..2091
     from datetime import date as _rdate, datetime as _rdatetime, timedelta as _rtd
     for _m in MODS:
         for _n, _real, _sym in (('date', _rdate, symdate.sdatetime), ('datetime', _rdatetime, symdate.sdatetime), ('timedelta', _rtd, symdate.stimedelta)):
@@ -76,4 +77,295 @@ def t_weekday_in_range(o: int):
     y, mo, d = start0.year, start0.month, start0.day
     start_s = digits.ph(y, 4) + '-' + digits.ph(mo, 2) + '-' + digits.ph(d, 2)
     res = TimexRangeResolver.evaluate(['XXXX-WXX-%d' % WD], ['(%s,XXXX-XX-XX,P%dD)' % (start_s, NDAYS)])
+    assert len(res) == 0
+
+
+# ---- several date-range constraints: collapse terminates, results stay inside at least one supplied range -----
+from datatypes_timex_expression.timex_constraints_helper import TimexConstraintsHelper  # noqa: E402
+
+LENS = sl('lens', [7, 14])           # one length (days) per constraint
+_REAL_INNER = TimexConstraintsHelper.inner_collapse
+
+
+class NoProgress(AssertionError):
+    pass
+
+
+def _monitored_inner(self, ranges):
+    """the real inner_collapse under a termination monitor: a pass that reports 'collapsed something' must shorten the list
+    (variant = len(ranges)); otherwise collapse() loops for ever"""
+    n = len(ranges)
+    r = _REAL_INNER(self, ranges)
+    if r and not len(ranges) < n:
+        raise NoProgress('TimexConstraintsHelper.collapse makes no progress: %d ranges before the pass, %d after' % (n, len(ranges)))
+    return r
+
+
+TimexConstraintsHelper.inner_collapse = _monitored_inner
+
+
+def _constraint(o, n):
+    d0 = datetime.fromordinal(o)
+    y, mo, d = d0.year, d0.month, d0.day
+    return '(%s-%s-%s,XXXX-XX-XX,P%dD)' % (digits.ph(y, 4), digits.ph(mo, 2), digits.ph(d, 2), n), datetime(y, mo, d)
+
+
+OFFS = sl('offs', None)              # concrete offsets (days) of constraints 2, 3 from the first; None = symbolic
+
+
+def _multi(o1, d2, d3):
+    offs = [0, d2, d3][:len(LENS)]
+    if OFFS is not None:
+        offs = [0] + list(OFFS)
+    cons, starts = [], []
+    for off, n in zip(offs, LENS):
+        c, s = _constraint(o1 + off, n)
+        cons.append(c)
+        starts.append(s)
+    return cons, starts
+
+
+def h_weekday_multi(o1: int, d2: int, d3: int):
+    """2..3 date-range constraints anywhere in a 2-year window (any order, overlapping or not) and a weekday candidate:
+    evaluate() returns; every result is definite, is that weekday, lies inside at least one supplied range; no duplicates"""
+    assert ORD_LO + 40 <= o1 <= ORD_HI - 800 and -30 <= d2 <= 730 and -30 <= d3 <= 730
+    assert OFFS is None or (d2 == 0 and d3 == 0)
+    digits.reset()
+    cons, starts = _multi(o1, d2, d3)
+    res = TimexRangeResolver.evaluate(['XXXX-WXX-%d' % WD], cons)
+    got = []
+    for t in res:
+        assert t.year is not None and t.month is not None and t.day_of_month is not None
+        assert t.day_of_week is None
+        dt = datetime(t.year, t.month, t.day_of_month)
+        assert dt.isoweekday() == WD
+        inside = False
+        for s, n in zip(starts, LENS):
+            if timedelta(days=0) <= dt - s < timedelta(days=n):
+                inside = True
+        assert inside
+        got.append(dt)
+    for i in range(len(got)):
+        for j in range(i + 1, len(got)):
+            assert got[i] != got[j]
+
+
+def t_weekday_multi(o1: int, d2: int, d3: int):
+    assert ORD_LO + 40 <= o1 <= ORD_HI - 800 and -30 <= d2 <= 730 and -30 <= d3 <= 730
+    assert OFFS is None or (d2 == 0 and d3 == 0)
+    digits.reset()
+    cons, starts = _multi(o1, d2, d3)
+    res = TimexRangeResolver.evaluate(['XXXX-WXX-%d' % WD], cons)
+    assert len(res) == 0
+
+
+# ---- collapse() on abstract ranges: the inductive piece behind "inside at least one supplied constraint" --------------------------
+from datatypes_timex_expression import DateRange, TimeRange, Time  # noqa: E402
+
+NR = sl('nr', 3)
+
+
+def h_collapse_dates(s1: int, n1: int, s2: int, n2: int, s3: int, n3: int, s4: int, n4: int):
+    """the real collapse()/DateRange on ranges whose endpoints are symbolic day numbers (the code only compares them and takes
+    max/min): it terminates (monitor), returns at least one range, every returned range lies inside one of the supplied ranges,
+    sorted by start; a single range is returned unchanged"""
+    assert 0 <= s1 <= 800 and 1 <= n1 <= 400 and 0 <= s2 <= 800 and 1 <= n2 <= 400
+    assert 0 <= s3 <= 800 and 1 <= n3 <= 400 and 0 <= s4 <= 800 and 1 <= n4 <= 400
+    orig = [(s1, s1 + n1), (s2, s2 + n2), (s3, s3 + n3), (s4, s4 + n4)][:NR]
+    out = TimexConstraintsHelper.collapse(TimexConstraintsHelper(), [DateRange(a, b) for a, b in orig])
+    assert len(out) >= 1
+    for r in out:
+        ok = False
+        for a, b in orig:
+            if a <= r.start and r.end <= b:
+                ok = True
+        assert ok
+    for i in range(len(out) - 1):
+        assert out[i].start <= out[i + 1].start
+    if NR == 1:
+        assert len(out) == 1 and out[0].start == s1 and out[0].end == s1 + n1
+
+
+def t_collapse_dates(s1: int, n1: int, s2: int, n2: int, s3: int, n3: int, s4: int, n4: int):
+    assert 0 <= s1 <= 800 and 1 <= n1 <= 400 and 0 <= s2 <= 800 and 1 <= n2 <= 400
+    assert 0 <= s3 <= 800 and 1 <= n3 <= 400 and 0 <= s4 <= 800 and 1 <= n4 <= 400
+    orig = [(s1, s1 + n1), (s2, s2 + n2), (s3, s3 + n3), (s4, s4 + n4)][:NR]
+    out = TimexConstraintsHelper.collapse(TimexConstraintsHelper(), [DateRange(a, b) for a, b in orig])
+    assert len(out) == NR            # must be violated: some inputs do collapse (NR >= 2)
+
+
+def _tr(h, m, s, dur):
+    """a TimeRange starting at h:m:s lasting dur seconds, the end written as a Time with its own fields"""
+    e = h * 3600 + m * 60 + s + dur
+    return TimeRange(Time(h, m, s), Time(e // 3600, e % 3600 // 60, e % 60)), ((h * 3600 + m * 60 + s) * 1000, e * 1000)
+
+
+def h_collapse_times(h1: int, m1: int, c1: int, d1: int, h2: int, m2: int, c2: int, d2: int, h3: int, m3: int, c3: int, d3: int):
+    """the same for TimeRange/Time (milliseconds of day; Time.from_seconds goes through float division, modelled exactly)"""
+    assert 0 <= h1 <= 23 and 0 <= m1 <= 59 and 0 <= c1 <= 59 and 1 <= d1 <= 36000
+    assert 0 <= h2 <= 23 and 0 <= m2 <= 59 and 0 <= c2 <= 59 and 1 <= d2 <= 36000
+    assert 0 <= h3 <= 23 and 0 <= m3 <= 59 and 0 <= c3 <= 59 and 1 <= d3 <= 36000
+    rs, orig = [], []
+    for (h, m, c, d) in [(h1, m1, c1, d1), (h2, m2, c2, d2), (h3, m3, c3, d3)][:NR]:
+        r, o = _tr(h, m, c, d)
+        rs.append(r)
+        orig.append(o)
+    out = TimexConstraintsHelper.collapse(TimexConstraintsHelper(), rs)
+    assert len(out) >= 1
+    for r in out:
+        a0, b0 = r.start.get_time(), r.end.get_time()
+        ok = False
+        for a, b in orig:
+            if a <= a0 and b0 <= b:
+                ok = True
+        assert ok
+    for i in range(len(out) - 1):
+        assert out[i].start.get_time() <= out[i + 1].start.get_time()
+
+
+# ---- time candidates against time-range constraints (no dates involved) ---------------------------------------------------------
+TCONS = sl('tcons', [['r', 'H', 2]])     # ['r', unit, amount] explicit range with a symbolic start; ['p', 'AF'] part of day
+TFIELDS = sl('tfields', 2)               # candidate written as T hh (1), T hh:mm (2), T hh:mm:ss (3)
+POD = {'DT': (8, 18), 'MO': (8, 12), 'AF': (12, 16), 'EV': (16, 20), 'NI': (20, 24)}
+UNIT_S = {'H': 3600, 'M': 60, 'S': 1}
+
+
+def _time_text(h, m, s, fields):
+    t = 'T' + digits.ph(h, 2)
+    if fields >= 2:
+        t += ':' + digits.ph(m, 2)
+    if fields >= 3:
+        t += ':' + digits.ph(s, 2)
+    return t
+
+
+def _time_cons(starts):
+    cons, spans = [], []
+    k = 0
+    for c in TCONS:
+        if c[0] == 'p':
+            cons.append('T' + c[1])
+            spans.append((POD[c[1]][0] * 3600, POD[c[1]][1] * 3600))
+        else:
+            h, m = starts[k]
+            k += 1
+            a = h * 3600 + m * 60
+            b = a + UNIT_S[c[1]] * c[2]
+            # the written end is the true end (a consistent range TIMEX); the library recomputes it from start + duration
+            cons.append('(%s,%s,PT%d%s)' % (_time_text(h, m, 0, 2), _time_text(b // 3600, b % 3600 // 60, b % 60, 3), c[2], c[1]))
+            spans.append((a, b))
+    return cons, spans
+
+
+def h_time_constraints(h: int, m: int, s: int, h1: int, m1: int, h2: int, m2: int):
+    """a time candidate and 1..2 time-range constraints: evaluate() returns; whatever it returns is the candidate itself (same
+    hour/minute/second, no date fields) and lies inside at least one supplied time range"""
+    assert 0 <= h <= 23 and 0 <= m <= 59 and 0 <= s <= 59 and 0 <= h1 <= 19 and 0 <= m1 <= 59 and 0 <= h2 <= 19 and 0 <= m2 <= 59
+    digits.reset()
+    if TFIELDS < 3:
+        assume(s == 0)
+    if TFIELDS < 2:
+        assume(m == 0)
+    cons, spans = _time_cons([(h1, m1), (h2, m2)])
+    res = TimexRangeResolver.evaluate([_time_text(h, m, s, TFIELDS)], cons)
+    assert len(res) <= 1
+    tsec = h * 3600 + m * 60 + s
+    for t in res:
+        assert t.year is None and t.month is None and t.day_of_month is None and t.day_of_week is None
+        assert t.hour == h and t.minute == m and t.second == s
+        inside = False
+        for a, b in spans:
+            if a <= tsec < b:
+                inside = True
+        assert inside
+
+
+def t_time_constraints(h: int, m: int, s: int, h1: int, m1: int, h2: int, m2: int):
+    assert 0 <= h <= 23 and 0 <= m <= 59 and 0 <= s <= 59 and 0 <= h1 <= 19 and 0 <= m1 <= 59 and 0 <= h2 <= 19 and 0 <= m2 <= 59
+    digits.reset()
+    if TFIELDS < 3:
+        assume(s == 0)
+    if TFIELDS < 2:
+        assume(m == 0)
+    cons, spans = _time_cons([(h1, m1), (h2, m2)])
+    res = TimexRangeResolver.evaluate([_time_text(h, m, s, TFIELDS)], cons)
+    assert len(res) == 0
+
+
+# ---- month-day candidate against one date-range constraint --------------------------------------------------------------------
+MDCON = sl('mdcon', 'year')          # 'year' (yyyy), 'month' (yyyy-mm), 'days' (explicit start + P<ndays>D)
+DIM_LEAP = [0, 31, 29, 31, 30, 31, 30, 31, 31, 30, 31, 30, 31]
+
+
+def _md_run(o, mo, d):
+    start0 = datetime.fromordinal(o)
+    y, m0, d0 = start0.year, start0.month, start0.day
+    if MDCON == 'year':
+        con = digits.ph(y, 4)
+        lo, hi = datetime(y, 1, 1), datetime(y + 1, 1, 1)
+    elif MDCON == 'month':
+        con = digits.ph(y, 4) + '-' + digits.ph(m0, 2)
+        lo = datetime(y, m0, 1)
+        hi = datetime(y + 1, 1, 1) if m0 == 12 else datetime(y, m0 + 1, 1)
+    else:
+        con = '(%s-%s-%s,XXXX-XX-XX,P%dD)' % (digits.ph(y, 4), digits.ph(m0, 2), digits.ph(d0, 2), NDAYS)
+        lo = datetime(y, m0, d0)
+        hi = lo + timedelta(days=NDAYS)
+    res = TimexRangeResolver.evaluate(['XXXX-%s-%s' % (digits.ph(mo, 2), digits.ph(d, 2))], [con])
+    return res, lo, hi
+
+
+def h_monthday_in_range(o: int, mo: int, d: int):
+    """a month-day candidate (every calendar month-day incl. 29 February) and one date-range constraint: evaluate() returns;
+    every result is definite, has that month and day, lies inside the range; no duplicates"""
+    assert ORD_LO + 40 <= o <= ORD_HI - 800 and 1 <= mo <= 12 and 1 <= d <= 31
+    digits.reset()
+    assume(d <= DIM_LEAP[int(mo)])
+    res, lo, hi = _md_run(o, mo, d)
+    got = []
+    for t in res:
+        assert t.year is not None and t.month == mo and t.day_of_month == d
+        dt = datetime(t.year, t.month, t.day_of_month)
+        assert lo <= dt < hi
+        got.append(dt)
+    for i in range(len(got)):
+        for j in range(i + 1, len(got)):
+            assert got[i] != got[j]
+
+
+def t_monthday_in_range(o: int, mo: int, d: int):
+    assert ORD_LO + 40 <= o <= ORD_HI - 800 and 1 <= mo <= 12 and 1 <= d <= 31
+    digits.reset()
+    assume(d <= DIM_LEAP[int(mo)])
+    res, lo, hi = _md_run(o, mo, d)
+    assert len(res) == 0
+
+
+# ---- weekday candidate, one date range and a time constraint: the date instances carry that time -----------------------------
+def h_weekday_time(o: int, h: int, m: int):
+    assert ORD_LO <= o <= ORD_HI and 0 <= h <= 23 and 0 <= m <= 59
+    digits.reset()
+    start0 = datetime.fromordinal(o)
+    y, mo, d = start0.year, start0.month, start0.day
+    start_s = digits.ph(y, 4) + '-' + digits.ph(mo, 2) + '-' + digits.ph(d, 2)
+    res = TimexRangeResolver.evaluate(['XXXX-WXX-%d' % WD], ['(%s,XXXX-XX-XX,P%dD)' % (start_s, NDAYS), _time_text(h, m, 0, 2)])
+    start = datetime(y, mo, d)
+    n = 0
+    for t in res:
+        assert t.year is not None and t.month is not None and t.day_of_month is not None and t.day_of_week is None
+        dt = datetime(t.year, t.month, t.day_of_month)
+        assert dt.isoweekday() == WD
+        assert timedelta(days=0) <= dt - start < timedelta(days=NDAYS)
+        assert t.hour == h and t.minute == m and t.second == 0
+        n += 1
+    assert n >= NDAYS // 7          # single date range: every such day is returned
+
+
+def t_weekday_time(o: int, h: int, m: int):
+    assert ORD_LO <= o <= ORD_HI and 0 <= h <= 23 and 0 <= m <= 59
+    digits.reset()
+    start0 = datetime.fromordinal(o)
+    y, mo, d = start0.year, start0.month, start0.day
+    start_s = digits.ph(y, 4) + '-' + digits.ph(mo, 2) + '-' + digits.ph(d, 2)
+    res = TimexRangeResolver.evaluate(['XXXX-WXX-%d' % WD], ['(%s,XXXX-XX-XX,P%dD)' % (start_s, NDAYS), _time_text(h, m, 0, 2)])
     assert len(res) == 0
